@@ -8,6 +8,7 @@ pub mod c10;
 pub mod c11;
 pub mod c12;
 pub mod c13;
+pub mod c17;
 pub mod c18;
 pub mod c19;
 pub mod c20;
@@ -26,10 +27,11 @@ pub fn by_id(id: &str) -> Option<Box<dyn Property>> {
         "C11" => Some(Box::new(c11::C11)),
         "C12" => Some(Box::new(c12::C12)),
         "C13" => Some(Box::new(c13::C13)),
+        "C17" => Some(Box::new(c17::C17)),
         "C18" => Some(Box::new(c18::C18)),
         "C19" => Some(Box::new(c19::C19)),
         "C20" => Some(Box::new(c20::C20)),
         _ => None,
     }
 }
-pub const ALL: &[&str] = &["C02", "C03", "C04", "C05", "C07", "C09", "C10", "C11", "C12", "C13", "C18", "C19", "C20"];
+pub const ALL: &[&str] = &["C02", "C03", "C04", "C05", "C07", "C09", "C10", "C11", "C12", "C13", "C17", "C18", "C19", "C20"];
